@@ -19,6 +19,27 @@ pub fn tick(c: &std::cell::Cell<i64>) {
     c.set(c.get() + 1);
     TICKS.fetch_add(1, std::sync::atomic::Ordering::SeqCst);
 }
+/// try macros stop at the end of a failed step: the canonical value of a failure, if `v` is one
+pub trait Carrier: Canon {
+    fn failed(&self) -> bool;
+}
+impl<T: Canon> Carrier for Option<T> {
+    fn failed(&self) -> bool {
+        self.is_none()
+    }
+}
+impl<T: Canon, E: Canon> Carrier for Result<T, E> {
+    fn failed(&self) -> bool {
+        self.is_err()
+    }
+}
+pub fn abort<C: Carrier>(v: &C) -> Option<Value> {
+    if v.failed() {
+        Some(v.canon())
+    } else {
+        None
+    }
+}
 /// hygiene probe: reads a caller local with a plausible name
 pub fn touch(_c: &std::cell::Cell<i64>) {}
 /// every tick must have reached the caller's own local
